@@ -293,6 +293,36 @@ pub fn record(rec: &mut Recorder, seed: u64, thorough: bool) {
         for from_sample in [false, true] {
             crate::c01::sampled::<lightmotif::abc::Dna>(rec, &mut r, l, from_sample);
             crate::c01::sampled::<lightmotif::abc::Protein>(rec, &mut r, l, from_sample);
+            crate::c01::sampled_rc(rec, &mut r, l, from_sample);
+        }
+    }
+    for it in 0..(if thorough { 6 } else { 2 }) {
+        let rows = 65_536 + [40usize, 1, 700][it % 3];
+        let mut sc = StripedScores::<u8, U32>::empty();
+        sc.resize(rows, rows * 32);
+        // background values below 100, one cell holding 100 in the low rows, the maximum 200 in a row beyond 65 535
+        for i in 0..rows { for j in 0..32 { sc.matrix_mut()[i][j] = ((i * 7 + j * 13) % 90) as u8; } }
+        let col = r.gen_range(0..32);
+        sc.matrix_mut()[r.gen_range(0..65_536)][col] = 100;
+        let top = 65_536 + r.gen_range(0..rows - 65_536);
+        sc.matrix_mut()[top][if it % 2 == 0 { col } else { r.gen_range(0..32) }] = 200;
+        for (be, arm) in [("avx2", None), ("dispatch", Some(Arm::Avx2)), ("generic", None)] {
+            force(arm);
+            let res = guarded(|| match be {
+                "avx2" => { let p = Pipeline::<Dna, _>::avx2().unwrap(); (p.argmax(&sc), p.max(&sc)) }
+                "dispatch" => { let p = Pipeline::<Dna, _>::dispatch(); (p.argmax(&sc), p.max(&sc)) }
+                _ => { let p = Pipeline::<Dna, _>::generic(); (p.argmax(&sc), p.max(&sc)) }
+            });
+            force(None);
+            rec.reset();
+            rec.class("u8_table_beyond_65536_rows");
+            rec.emit(match res {
+                // the documented size limit of a kernel is an ordinary refusal
+                Err(msg) => json!({"ev":"reduce_big","be":be,"rows":rows,"ret":"refused","msg":msg,"want":200,"max":[],"cell":[]}),
+                Ok((am, mx)) => json!({"ev":"reduce_big","be":be,"rows":rows,"ret":"ok","want":200,
+                                       "max": mx.map(|x| vec![x as i64]).unwrap_or_default(),
+                                       "cell": am.map(|mc| vec![sc.matrix()[mc.row][mc.col] as i64]).unwrap_or_default()}),
+            });
         }
     }
     for _ in 0..(if thorough { 200 } else { 40 }) {
